@@ -5,6 +5,7 @@ from .. import common as C
 from ..layer_a import Engine, proj_kinds
 from ..runner import run_coexec, replay_coexec
 from ..deleg_part import DelegPart
+from .C16 import ShapePart
 
 MODULE = "Props.C07"
 THEOREMS = ["C07_unmentioned", "C07_unmatched", "C07_quiet_and_no_value", "C07_history_quiet",
@@ -128,7 +129,13 @@ def run(tier, seed):
                       extra_cov={"exhaustive": True}, extra_obligations=C.inventory_obligation,
                       parts=[DelegPart("C07", sparse_deleg_case, directed=directed_receiver_cases,
                                        what= "correspondence C07 (receiver part): unmentioned / unmatched calls made by default bodies "
-                                       "through delegation helpers of every receiver kind vs the model", rule=sparse_deleg_case.__doc__)])
+                                       "through delegation helpers of every receiver kind vs the model", rule=sparse_deleg_case.__doc__),
+                             # the fall-through to the real implementation for every trait SHAPE (receiver spellings such as `self: &mut Self`,
+                             # arities, flavours): C05's generator restricted to methods that resolve to Unmock (pattern rejects in a partial
+                             # mock, applies_unmocked(), no function registered = must panic naming the method)
+                             ShapePart("C07", "shapes07", lambda m: m["resp"] == "unmock",
+                                       "calls that resolve to the real implementation (or must panic naming the method when none is registered), "
+                                       "for generated trait shapes, vs Macro/ShapeRun (C05_unmock_arm, C05_unmock_slot)")])
 
 
 def replay(path):
@@ -137,4 +144,7 @@ def replay(path):
     if payload.get("part") == "deleg":
         from .. import deleg_part
         return deleg_part.replay("C07", payload, path)
+    if payload.get("part") == "shape":
+        from .C16 import replay_shape
+        return replay_shape("C07", payload, path, "shapes07")
     return replay_coexec("C07", path, lambda p: Engine("C07", project=proj_kinds))
